@@ -4,7 +4,8 @@
 // for the scalar type T, and nothing else that the library could pick up by
 // accident:
 //   * default / copy construction and assignment
-//   * construction from an integer through static_cast  (explicit Rat(int))
+//   * construction from an integer through static_cast  (explicit, from any
+//     built-in integer type, value preserving)
 //   * + - * /  and  += -= *= /=
 //   * unary minus
 //   * == != < <= > >=
@@ -22,6 +23,7 @@
 
 #include <cstdint>
 #include <stdexcept>
+#include <type_traits>
 
 namespace verif {
 
@@ -76,7 +78,11 @@ class Rat {
 
  public:
   Rat() : _n(0), _d(1) {}
-  explicit Rat(int i) : _n(i), _d(1) {}
+  // "construction from an integer through static_cast": every built-in integer
+  // type, value preserving (the library converts int, size_t and whatever integer
+  // type a caller uses as an operator scalar); nothing else converts
+  template <typename Int, std::enable_if_t<std::is_integral_v<Int> && !std::is_same_v<Int, bool>, int> = 0>
+  explicit Rat(Int i) : _n(static_cast<I>(i)), _d(1) {}
   Rat(const Rat &) = default;
   Rat &operator=(const Rat &) = default;
 
